@@ -54,6 +54,7 @@ type caseT struct {
 	AddStop  string `json:"add_conn_during_stop,omitempty"`     // core: "" | race | in-onopen (AddConn whose open callback is still running when Stop starts)
 	Transfer bool   `json:"ws_transfer_to_poller,omitempty"`    // http: Upgrader.BlockingModTrasferConnToPoller
 	WSSync   bool   `json:"ws_sync_write,omitempty"`            // http: Upgrader.BlockingModAsyncWrite = false
+	HTTPExec string `json:"http_custom_executors,omitempty"`    // http: "" | server | client | both (application-supplied executors: the engine creates, and must stop, only the pools it owns)
 	CloseAdd string `json:"close_vs_add_conn,omitempty"`        // core: "" | closed-first | close-race (Close of an nbio.Conn before / while it is handed to AddConn)
 }
 
@@ -89,6 +90,7 @@ func genCase(r *h.Run, idx int) caseT {
 	} else {
 		c.Transfer = rng.Intn(2) == 0
 		c.WSSync = rng.Intn(3) == 0
+		c.HTTPExec = []string{"", "", "server", "client", "both"}[rng.Intn(5)]
 	}
 	return c
 }
@@ -505,6 +507,15 @@ func runCase(r *h.Run, c caseT) {
 		up.OnMessage(func(wc *websocket.Conn, mt websocket.MessageType, b []byte) { _ = wc.WriteMessage(mt, b) })
 		mux.HandleFunc("/ws", func(w http.ResponseWriter, rq *http.Request) { _, _ = up.Upgrade(w, rq, nil) })
 		conf := c.Cell.Config(mux)
+		goExec := func(f func()) { go f() }
+		switch c.HTTPExec {
+		case "server":
+			conf.ServerExecutor = goExec
+		case "client":
+			conf.ClientExecutor = goExec
+		case "both":
+			conf.ServerExecutor, conf.ClientExecutor = goExec, goExec
+		}
 		e := nbhttp.NewEngine(conf)
 		up.Engine = e
 		e.OnOpen(func(cn net.Conn) { atomic.AddInt64(&opens, 1); atomic.AddInt64(&progress, 1) })
